@@ -6,7 +6,7 @@ import warnings
 from .common import Oracle, Suite, errname, hx, merge
 from .formats_common import cps
 
-GEN_UNITS = ["ShaCrypt", "B64", "MiscTables", "PyUnicode"]
+GEN_UNITS = ["ShaCrypt", "B64", "MiscTables", "PyUnicode", "LibpassAll"]
 LEAN_TARGETS = ["PasslibVerif.Props.C20"]
 ASSUMPTIONS = [
     "hashlib.pbkdf2_hmac and the bcrypt package are external code shared by both libraries; for them the model's digest is the RFC 8018 / bcrypt "
